@@ -12,6 +12,15 @@ abbrev Text := List Glyph
 
 def Text.cols (t : Text) : Nat := (t.map (·.w)).sum
 
+/-- `LineType::padded_width` (repair of F5): the display width plus the columns a terminal of `W` columns
+leaves empty at the end of a row because the next glyph is two columns wide and moves to the next row as a
+whole. State of the fold: (column reached, padding so far). -/
+def Text.padStep (W : Nat) (acc : Nat × Nat) (g : Glyph) : Nat × Nat :=
+  if g.w = 0 ∨ g.w > W then acc else
+  let rest := W - acc.1 % W
+  if acc.1 % W ≠ 0 ∧ g.w > rest then (acc.1 + rest + g.w, acc.2 + rest) else (acc.1 + g.w, acc.2)
+def Text.padded (W : Nat) (t : Text) : Nat := t.cols + (t.foldl (Text.padStep W) (0, 0)).2
+
 def space : Glyph := { cp := 32, w := 1 }
 def nl : Nat := 10
 
@@ -39,6 +48,8 @@ structure Line where
 deriving DecidableEq, Repr
 
 def Line.cols (l : Line) : Nat := l.gs.cols
+/-- the columns the line takes on a terminal of `W` columns, early wraps of double-width glyphs included -/
+def Line.padded (W : Nat) (l : Line) : Nat := l.gs.padded W
 def Line.isBar (l : Line) : Bool :=
   match l.kind with
   | .bar => true
